@@ -223,3 +223,7 @@ func indexOfUser(a string) int {
 }
 
 func sdkAddr(s string) (sdk.AccAddress, error) { return sdk.AccAddressFromBech32(s) }
+
+// tid is the id of the target auction of the single-auction harnesses. It is 1, not 0: id 0 is the zero
+// value of every id field, so a record that lost its auction id would go unnoticed with a target of 0.
+func tid() uint64 { return uint64(nd.Param("tid", 1)) }
